@@ -10,6 +10,7 @@ Decided
       output = [ C'[j, i, half - k] for k = 0 .. half-1 ] ++ [ C'[i, j, k] for k = 0 .. half ]  with C' = C except
       C'[i, j, 0] = max(C[i, j, 0], C[j, i, 0]); hence 2*half + 1 bins, C[i,j,k] = C[j,i,-k], positive lags unchanged
   U2  firing_rate = (counts outer counts) x bin / duration with counts padded by zeros up to the number of requested ids
+  +   window in bins = 2 * floor(window / (2 bin)) + 1: a rounded or ceiled ratio is a recognised wrong form
 Not decided: the pair count itself (the shrinking-mask loop is value level).
 """
 import ast
@@ -309,7 +310,20 @@ def run(ctx):
     tri('C15.U1', lag_good or lag_bad or 'lag', lag_good is not None, lag_bad is not None, 'lag in bins = floor(delay in samples / bin size in samples)',
         'the lag is `%s`, not floor(delay / bin size in samples)' % (unparse(lag_bad.value) if lag_bad is not None else '?'), 'the statement computing the lag in bins was not recognised')
     wb = P.stmt('V_wbins = 2 * int(0.5 * window_size / bin_size) + 1') or P.stmt('V_wbins = 2 * int(window_size / bin_size / 2) + 1') or P.stmt('V_wbins = 2 * int(window_size / (2 * bin_size)) + 1')
-    tri('C15.U1', wb or 'window', wb is not None, False, 'window in bins = 2*int(window / (2 bin)) + 1 (odd)', '', 'the window size in bins is not in a recognised form')
+    wb = wb or P.stmt('V_wbins = 2 * (int(window_size / bin_size) // 2) + 1') or P.stmt('V_wbins = 2 * int(window_size / bin_size * 0.5) + 1') or P.stmt('V_wbins = 2 * int(window_size * 0.5 / bin_size) + 1') or \
+        P.stmt('V_wbins = 2 * int(window_size // (2 * bin_size)) + 1') or P.stmt('V_wbins = int(0.5 * window_size / bin_size) * 2 + 1') or P.stmt('V_wbins = 1 + 2 * int(0.5 * window_size / bin_size)')
+    # a recognised WRONG form: the half-window is floor(window / (2 bin)); rounding the ratio (or taking its ceiling) lets lags beyond half the window be counted
+    wb_any = P.stmt('V_wbins = 2 * E_half + 1') or P.stmt('V_wbins = E_half * 2 + 1') or P.stmt('V_wbins = 1 + 2 * E_half')
+    wb_bad = None
+    if wb is None and wb_any is not None:
+        hx = cg.expand(wb_any.value)
+        names_ = {n_.id for n_ in ast.walk(hx) if isinstance(n_, ast.Name)}
+        calls_ = [(dotted(c_.func) or '') for c_ in ast.walk(hx) if isinstance(c_, ast.Call)]
+        if {'window_size', 'bin_size'} <= names_ and any(c_ in ('round', 'np.round', 'np.rint', 'np.around', 'np.ceil', 'math.ceil', 'ceil') for c_ in calls_):
+            wb_bad = wb_any
+    tri('C15.U1', wb or wb_bad or 'window', wb is not None, wb_bad is not None, 'window in bins = 2*int(window / (2 bin)) + 1 (odd)',
+        'the half-window in bins is `%s`: rounding (or a ceiling) instead of the floor of window / (2 bin) makes the window one bin wider for some window / bin ratios, so lags beyond half the window are counted'
+        % (unparse(wb_bad.value)[:80] if wb_bad is not None else ''), 'the window size in bins is not in a recognised form')
     ca = repo.func(CCG, '_create_correlograms_array')
     PA = Pat(ca)
     z = PA.expr('np.zeros((%s, %s, E_half), REST)' % (ca.params[0], ca.params[0])) or PA.expr('np.zeros((%s, %s, E_half))' % (ca.params[0], ca.params[0]))
